@@ -124,25 +124,41 @@ def run(ctx):
             if set(ctx.roots(v[4][0])) != {P_(f, cur_i)}:
                 r2.fail("C19.R2:cursor-arg", f.path, common.span_of_block_term(f, v[2]), "cursor helper is applied to %s, not to the start_after parameter" % sorted(ctx.roots(v[4][0])))
             ex = [x for x in common.exit_sites(P, helper)]
-            v = ex[0][3] if len(ex) == 1 else None
+            from ..mir import phi as _phi
+            v = _phi([x[3] for x in ex]) if ex else None
             base_param = P_(helper, 0)
         else:
             base_param = P_(f, cur_i)
         clo = None
+        val = None
+        arg_want = None
+        ctxfn = None
         if v is not None and v[0] == "call" and isinstance(v[3], str) and generic_path(v[3]).endswith("Option::map") and set(ctx.roots(v[4][0])) == {base_param}:
             cv = v[4][1]
             if cv[0] == "agg" and cv[1] == "closure":
                 clo = P.fn(cv[2])
-        if clo is None:
-            r2.fail("C19.R2:shape", f.path, f.span, "cursor is not computed as start_after.map(|assets| ...): unrecognised-idiom")
+                ex = common.exit_sites(P, clo)
+                val = ex[0][3] if len(ex) == 1 else None
+                arg_want = P_(clo, 1)
+                ctxfn = clo
+        elif v is not None:
+            # match start_after { Some(a) => Some(cursor(a)), None => None }
+            alts = list(v[1]) if v[0] == "phi" else [v]
+            somes = [a for a in alts if a[0] == "agg" and str(a[2]).endswith("Option::Some")]
+            nones = [a for a in alts if a[0] == "agg" and str(a[2]).endswith("Option::None")]
+            if len(somes) == 1 and len(somes) + len(nones) == len(alts):
+                val = somes[0][3][0][1]
+                arg_want = base_param
+                ctxfn = helper or f
+                clo = ctxfn
+        if val is None:
+            r2.fail("C19.R2:shape", f.path, f.span, "cursor is not computed as start_after.map(|assets| ...) / match start_after { Some(a) => Some(..), None => None }: unrecognised-idiom")
         else:
-            ex = common.exit_sites(P, clo)
-            val = ex[0][3] if len(ex) == 1 else None
             muts = []
             while val is not None and val[0] == "mut":
                 muts.append((val[3], val[4]))
                 val = val[1]
-            if val is None or not (val[0] == "call" and isinstance(val[3], str) and generic_path(val[3]) == kf.path and set(ctx.roots(val[4][0])) == {P_(clo, 1)}):
+            if val is None or not (val[0] == "call" and isinstance(val[3], str) and generic_path(val[3]) == kf.path and set(ctx.roots(val[4][0])) == {arg_want}):
                 r2.fail("C19.R2:not-key-fn", clo.path, clo.span,
                         "the cursor bytes are %s, not the registry key function applied to the cursor's assets: cursor order and registry order can disagree" % (ctx.show(val, 3) if val else "?"))
             else:
